@@ -1300,10 +1300,13 @@ Stylesheet::findTemplate(
 
                             if(XPath::eMatchScoreNone != score)
                             {
-                                const double priorityVal = rule->getPriority();
-                                const double priorityOfRule 
-                                              = (matchScoreNoneValue != priorityVal) 
-                                              ? priorityVal : XPath::getMatchScoreValue(score);
+                                // Use the same priority that was used to order
+                                // the table, which is the priority of the template,
+                                // or the default priority of this alternative of
+                                // its pattern.  The match score of the whole
+                                // pattern is not the default priority.
+                                const double priorityOfRule =
+                                    matchPat->getPriorityOrDefault();
 
                                 matchPatPriority = priorityOfRule;
                                 const double priorityOfBestMatched =
